@@ -67,6 +67,23 @@ func main() {
 	}
 	seen := map[string]bool{}
 	var progs []string
+	// `c08vmtest labels.txt -q file`: dump only the queries listed in file (one per line), fully optimised
+	if len(os.Args) > 3 && os.Args[2] == "-q" {
+		data, _ := os.ReadFile(os.Args[3])
+		for _, src := range strings.Split(strings.TrimSpace(string(data)), "\n") {
+			q, err := gojq.Parse(src)
+			if err != nil {
+				continue
+			}
+			c, err := gojq.Compile(q)
+			if err != nil {
+				continue
+			}
+			fmt.Fprintln(out, encode(gojq.VerifCodes(c)))
+			fmt.Fprintln(lw, src)
+		}
+		return
+	}
 	add := func(s string) {
 		if !seen[s] {
 			seen[s] = true
